@@ -10,3 +10,172 @@ package types
 //@ loop 0 invariant seen: 0 <= iter && iter <= len(pricing.PromotionsByTime)
 //@ loop 0 invariant none_before: forall j Int :: 0 <= j && j < iter ==> !inWindow(pricing.PromotionsByTime[j], time)
 //@ ensures result_is_dT: result == discountByTime(pricing, time)
+
+//@ func GetDiscountByVolume
+//@ props C07
+//@ theory coins keys pricing
+//@ loop 0 invariant seen: 0 <= iter && iter <= len(pricing.PromotionsByVolume)
+//@ loop 0 invariant all_le: forall j Int :: 0 <= j && j < iter ==> volAt(pricing, j) <= volume
+//@ loop 0 invariant not_past_end: len(pricing.PromotionsByVolume) == 0 || iter < len(pricing.PromotionsByVolume)
+//@ ensures result_is_dV: result == discountByVolume(pricing, volume)
+
+//@ func ValidatePricing
+//@ props C07 C15
+//@ theory coins keys pricing
+//@ loop 0 invariant seen: 0 <= iter && iter <= len(pricing.PromotionsByTime)
+//@ loop 0 invariant ok_so_far: forall j Int :: 0 <= j && j < iter ==> windowOK(pricing, j)
+//@ loop 1 invariant seen: 0 <= iter && iter <= len(pricing.PromotionsByVolume)
+//@ loop 1 invariant windows: forall j Int :: 0 <= j && j < len(pricing.PromotionsByTime) ==> windowOK(pricing, j)
+//@ loop 1 invariant ok_so_far: forall j Int :: 0 <= j && j < iter ==> volumeOK(pricing, j)
+//@ ensures nil_iff_valid: (result == NoErr) <==> validPricing(pricing)
+
+// ---------------------------------------------------------------- store keys (layer K): every builder returns exactly kbytes(<Key>) / pbytes(<Prefix>)
+//@ func GetServiceDefinitionKey
+//@ props C18 C15
+//@ theory coins keys bytes
+//@ ensures exact: result == kbytes(KDef(serviceName))
+
+//@ func GetServiceBindingKey
+//@ props C18 C15
+//@ theory coins keys bytes
+//@ ensures exact: result == kbytes(KBind(serviceName, provider))
+
+//@ func GetOwnerServiceBindingKey
+//@ props C18 C15
+//@ theory coins keys bytes
+//@ ensures exact: result == kbytes(KOwnerBind(owner, serviceName, provider))
+
+//@ func GetOwnerKey
+//@ props C18 C15
+//@ theory coins keys bytes
+//@ ensures exact: result == kbytes(KOwner(provider))
+
+//@ func GetOwnerProviderKey
+//@ props C18 C15
+//@ theory coins keys bytes
+//@ ensures exact: result == kbytes(KOwnerProv(owner, provider))
+
+//@ func GetPricingKey
+//@ props C18 C15
+//@ theory coins keys bytes
+//@ ensures exact: result == kbytes(KPricing(serviceName, provider))
+
+//@ func GetWithdrawAddrKey
+//@ props C18 C13
+//@ theory coins keys bytes
+//@ ensures exact: result == kbytes(KWAddr(provider))
+
+//@ func GetBindingsSubspace
+//@ props C18 C15
+//@ theory coins keys bytes
+//@ ensures exact: result == pbytes(PBindSvc(serviceName))
+
+//@ func GetOwnerBindingsSubspace
+//@ props C18 C15
+//@ theory coins keys bytes
+//@ ensures exact: result == pbytes(POwnerBind(owner, serviceName))
+
+//@ func GetOwnerProvidersSubspace
+//@ props C18 C13
+//@ theory coins keys bytes
+//@ ensures exact: result == pbytes(POwnerProv(owner))
+
+//@ func GetRequestContextKey
+//@ props C18
+//@ theory coins keys bytes
+//@ ensures exact: result == kbytes(KCtx(requestContextID))
+
+//@ func GetExpiredRequestBatchKey
+//@ props C18 C11
+//@ theory coins keys bytes
+//@ ensures exact: result == kbytes(KExpQ(batchExpirationHeight, requestContextID))
+
+//@ func GetNewRequestBatchKey
+//@ props C18 C11
+//@ theory coins keys bytes
+//@ ensures exact: result == kbytes(KNewQ(requestBatchHeight, requestContextID))
+
+//@ func GetExpiredRequestBatchSubspace
+//@ props C18 C11
+//@ theory coins keys bytes
+//@ ensures exact: result == pbytes(PExpQ(batchExpirationHeight))
+
+//@ func GetNewRequestBatchSubspace
+//@ props C18 C11
+//@ theory coins keys bytes
+//@ ensures exact: result == pbytes(PNewQ(requestBatchHeight))
+
+//@ func GetExpiredRequestBatchHeightKey
+//@ props C18 C11
+//@ theory coins keys bytes
+//@ ensures exact: result == kbytes(KExpH(requestContextID))
+
+//@ func GetNewRequestBatchHeightKey
+//@ props C18 C11
+//@ theory coins keys bytes
+//@ ensures exact: result == kbytes(KNewH(requestContextID))
+
+//@ func GetRequestKey
+//@ props C18
+//@ theory coins keys bytes
+//@ ensures exact: result == kbytes(KReq(requestID))
+
+//@ func GetRequestSubspaceByReqCtx
+//@ props C18 C16
+//@ theory coins keys bytes
+//@ ensures exact: result == pbytes(PReqByCtx(requestContextID, batchCounter))
+
+//@ func GetActiveRequestKey
+//@ props C18 C16
+//@ theory coins keys bytes
+//@ ensures exact: result == kbytes(KActB(serviceName, provider, expirationHeight, requestID))
+
+//@ func GetActiveRequestSubspace
+//@ props C18 C17
+//@ theory coins keys bytes
+//@ ensures exact: result == pbytes(PActBind(serviceName, provider))
+
+//@ func GetActiveRequestKeyByID
+//@ props C18 C16
+//@ theory coins keys bytes
+//@ ensures exact: result == kbytes(KActID(requestID))
+
+//@ func GetActiveRequestSubspaceByReqCtx
+//@ props C18 C16
+//@ theory coins keys bytes
+//@ ensures exact: result == pbytes(PActByCtx(requestContextID, batchCounter))
+
+//@ func GetRequestVolumeKey
+//@ props C18 C07
+//@ theory coins keys bytes
+//@ ensures exact: result == kbytes(KVol(consumer, serviceName, provider))
+
+//@ func GetResponseKey
+//@ props C18
+//@ theory coins keys bytes
+//@ ensures exact: result == kbytes(KResp(requestID))
+
+//@ func GetResponseSubspaceByReqCtx
+//@ props C18 C16
+//@ theory coins keys bytes
+//@ ensures exact: result == pbytes(PRespByCtx(requestContextID, batchCounter))
+
+//@ func GetEarnedFeesKey
+//@ props C18 C13
+//@ theory coins keys bytes
+//@ ensures exact: result == kbytes(KEarned(provider, denom))
+
+//@ func GetEarnedFeesSubspace
+//@ props C18 C13
+//@ theory coins keys bytes
+//@ ensures exact: result == pbytes(PEarned(provider))
+
+//@ func GetOwnerEarnedFeesKey
+//@ props C18 C13
+//@ theory coins keys bytes
+//@ ensures exact: result == kbytes(KOwnerEarned(owner))
+
+//@ func GetOwnerEarnedFeesSubspace
+//@ props C18 C13
+//@ theory coins keys bytes
+//@ ensures exact: result == pbytes(POwnerEarned(owner))
